@@ -19,5 +19,5 @@ Lemma tie_chunk_cardinality :
   lookup "mergeAndPersistInvertedSection" chunk_size_calls = Some ["chunkMode"; "newCard"; "newSegDocCount"] /\
   List.length chunk_size_calls = 3%nat /\
   merge_postings_loads = [["lowItrVals[i]"; "drops[idx]"; "nil"]; ["postingsOffset"; "drops[itrI]"; "postings"]].
-Proof. timeout 60 (vm_compute; repeat split; reflexivity). Qed.
+Proof. timeout 240 (vm_compute; repeat split; reflexivity). Qed.
 Print Assumptions tie_chunk_cardinality.
